@@ -238,12 +238,18 @@ func (c *Ctx) ruleEnumTables(rule, pkg string) {
 
 // opErrorOrigins collects the alternatives of the error an operation may return, looking through module callees.
 func (c *Ctx) errorAlts(f *ssa.Function, depth int, seen map[*ssa.Function]bool) []*Ex {
+	return c.errorAltsIn(c.P.OriginsOf(f), depth, seen)
+}
+
+// errorAltsIn: the error origins of o.Fn read in the context o (a helper that hands back an error it was given is
+// read with the argument of the call that reached it).
+func (c *Ctx) errorAltsIn(o *Origins, depth int, seen map[*ssa.Function]bool) []*Ex {
+	f := o.Fn
 	if seen[f] || depth > 5 {
 		return nil
 	}
 	seen[f] = true
 	defer delete(seen, f)
-	o := c.P.OriginsOf(f)
 	var out []*Ex
 	for _, r := range Returns(f) {
 		n := len(r.Results)
@@ -261,7 +267,11 @@ func (c *Ctx) errorAlts(f *ssa.Function, depth int, seen map[*ssa.Function]bool)
 					callee, _ = mc.Fn.(*ssa.Function)
 				}
 				if callee != nil && c.moduleFn(callee) && (callee.Signature.Results().Len() > 0 && IsErrorType(callee.Signature.Results().At(callee.Signature.Results().Len()-1).Type())) {
-					out = append(out, c.errorAlts(callee, depth+1, seen)...)
+					if a.Call.Parent() == f && c.P.IsNewFunc(callee) && callee.Parent() == nil {
+						out = append(out, c.errorAltsIn(o.Enter(callee, a.Call), depth+1, seen)...)
+					} else {
+						out = append(out, c.errorAlts(callee, depth+1, seen)...)
+					}
 					continue
 				}
 			}
